@@ -424,65 +424,125 @@ VCHECK("c20.client", 200)
     client.enableSm(true);
     client.openSession();
     client.pump(2);
-    // find the caps in a presence the client emitted
-    QString ver, node, hashName;
-    for (auto &x : client.take()) {
-        auto p = xu::parseFragment(x);
-        if (!p.ok() || p.el.tagName() != u"presence")
-            continue;
-        for (QDomElement ch = p.el.firstChildElement(); !ch.isNull(); ch = ch.nextSiblingElement()) {
-            if (ch.tagName() == u"c" && ch.namespaceURI() == u"http://jabber.org/protocol/caps") {
-                ver = ch.attribute(QStringLiteral("ver"));
-                node = ch.attribute(QStringLiteral("node"));
-                hashName = ch.attribute(QStringLiteral("hash"));
+    int verifyCount = 0;
+    auto verify = [&](const std::string &when, bool fromClientPresence) {
+        const QString iqId = QStringLiteral("disco%1").arg(++verifyCount);
+        // the caps of the presence: read from the bytes the client emitted when the session opened; for later updates from
+        // the client presence itself (the socketless harness has no connection the update could be written to)
+        QString ver, node, hashName;
+        if (fromClientPresence) {
+            const QXmppPresence cp = client.clientPresence();
+            ver = QString::fromLatin1(cp.capabilityVer().toBase64());
+            node = cp.capabilityNode();
+            hashName = cp.capabilityHash();
+        } else {
+            for (auto &x : client.take()) {
+                auto p = xu::parseFragment(x);
+                if (!p.ok() || p.el.tagName() != u"presence")
+                    continue;
+                for (QDomElement ch = p.el.firstChildElement(); !ch.isNull(); ch = ch.nextSiblingElement()) {
+                    if (ch.tagName() == u"c" && ch.namespaceURI() == u"http://jabber.org/protocol/caps") {
+                        ver = ch.attribute(QStringLiteral("ver"));
+                        node = ch.attribute(QStringLiteral("node"));
+                        hashName = ch.attribute(QStringLiteral("hash"));
+                    }
+                }
             }
         }
-    }
-    c.require(!ver.isEmpty(), "c20 client no-caps-in-presence", "the client's initial presence carries no <c/> caps element; " + ex);
-    c.require(hashName == u"sha-1", "c20 client caps-hash-name", "caps hash attribute is '" + q(hashName) + "'");
-    c.nontrivial(vh::fnv(ex + q(ver)));
+        c.require(!ver.isEmpty(), "c20 client no-caps-in-presence", "the presence the client sent (" + when + ") carries no <c/> caps element; " + ex);
+        c.require(hashName == u"sha-1", "c20 client caps-hash-name", "caps hash attribute is '" + q(hashName) + "'");
+        c.nontrivial(vh::fnv(ex + q(ver) + when));
 
-    // ask for node#ver
-    QString query = QStringLiteral("<iq type='get' id='disco1' from='romeo@montague.example/orchard' to='alice@example.org/phone'><query xmlns='http://jabber.org/protocol/disco#info' node=\"%1\"/></iq>")
-                        .arg((node + u'#' + ver).toHtmlEscaped());
-    c.require(client.injectXml(query), "c20 harness-query-malformed", "query not well-formed: " + q(query));
-    client.pump(2);
-    QDomElement reply;
-    xu::Parsed keep;
-    for (auto &x : client.take()) {
-        auto p = xu::parseFragment(x);
-        if (p.ok() && p.el.tagName() == u"iq" && p.el.attribute(QStringLiteral("id")) == u"disco1") {
-            keep = p;
-            reply = keep.el;
-        }
-    }
-    c.require(!reply.isNull() && reply.attribute(QStringLiteral("type")) == u"result", "c20 client no-disco-result",
-              "no result for disco#info on node#ver (got " + (reply.isNull() ? std::string("nothing") : q(reply.attribute(QStringLiteral("type")))) + "); " + ex);
-    // reference hash of the reply, parsed from the emitted bytes
-    InfoSet s;
-    QDomElement qe = reply.firstChildElement(QStringLiteral("query"));
-    for (QDomElement ch = qe.firstChildElement(); !ch.isNull(); ch = ch.nextSiblingElement()) {
-        if (ch.tagName() == u"identity")
-            s.identities.push_back({ ch.attribute(QStringLiteral("category")), ch.attribute(QStringLiteral("type")), ch.attribute(QStringLiteral("xml:lang")), ch.attribute(QStringLiteral("name")) });
-        else if (ch.tagName() == u"feature")
-            s.features << ch.attribute(QStringLiteral("var"));
-        else if (ch.tagName() == u"x" && ch.namespaceURI() == u"jabber:x:data") {
-            s.hasForm = true;
-            for (QDomElement f = ch.firstChildElement(QStringLiteral("field")); !f.isNull(); f = f.nextSiblingElement(QStringLiteral("field"))) {
-                QStringList vals;
-                for (QDomElement v = f.firstChildElement(QStringLiteral("value")); !v.isNull(); v = v.nextSiblingElement(QStringLiteral("value")))
-                    vals << v.text();
-                if (f.attribute(QStringLiteral("var")) == u"FORM_TYPE")
-                    s.formType = vals.value(0);
-                else
-                    s.fields.push_back({ f.attribute(QStringLiteral("var")), vals, vals.size() > 1 });
+        // ask for node#ver
+        QString query = QStringLiteral("<iq type='get' id='%2' from='romeo@montague.example/orchard' to='alice@example.org/phone'><query xmlns='http://jabber.org/protocol/disco#info' node=\"%1\"/></iq>")
+                            .arg((node + u'#' + ver).toHtmlEscaped(), iqId);
+        c.require(client.injectXml(query), "c20 harness-query-malformed", "query not well-formed: " + q(query));
+        client.pump(2);
+        QDomElement reply;
+        xu::Parsed keep;
+        for (auto &x : client.take()) {
+            auto p = xu::parseFragment(x);
+            if (p.ok() && p.el.tagName() == u"iq" && p.el.attribute(QStringLiteral("id")) == iqId) {
+                keep = p;
+                reply = keep.el;
             }
         }
+        c.require(!reply.isNull() && reply.attribute(QStringLiteral("type")) == u"result", "c20 client no-disco-result",
+                  "no result for disco#info on node#ver (got " + (reply.isNull() ? std::string("nothing") : q(reply.attribute(QStringLiteral("type")))) + "); " + ex);
+        // reference hash of the reply, parsed from the emitted bytes
+        InfoSet s;
+        QDomElement qe = reply.firstChildElement(QStringLiteral("query"));
+        for (QDomElement ch = qe.firstChildElement(); !ch.isNull(); ch = ch.nextSiblingElement()) {
+            if (ch.tagName() == u"identity")
+                s.identities.push_back({ ch.attribute(QStringLiteral("category")), ch.attribute(QStringLiteral("type")), ch.attribute(QStringLiteral("xml:lang")), ch.attribute(QStringLiteral("name")) });
+            else if (ch.tagName() == u"feature")
+                s.features << ch.attribute(QStringLiteral("var"));
+            else if (ch.tagName() == u"x" && ch.namespaceURI() == u"jabber:x:data") {
+                s.hasForm = true;
+                for (QDomElement f = ch.firstChildElement(QStringLiteral("field")); !f.isNull(); f = f.nextSiblingElement(QStringLiteral("field"))) {
+                    QStringList vals;
+                    for (QDomElement v = f.firstChildElement(QStringLiteral("value")); !v.isNull(); v = v.nextSiblingElement(QStringLiteral("value")))
+                        vals << v.text();
+                    if (f.attribute(QStringLiteral("var")) == u"FORM_TYPE")
+                        s.formType = vals.value(0);
+                    else
+                        s.fields.push_back({ f.attribute(QStringLiteral("var")), vals, vals.size() > 1 });
+                }
+            }
+        }
+        QByteArray ref = referenceHash(s).toBase64();
+        c.require(QString::fromLatin1(ref) == ver, "c20 client advertised-ver-differs-from-disco-reply", [&] {
+            return "presence advertises ver=" + q(ver) + " but the disco#info reply for that node hashes to " + ref.toStdString() + "\n reply: " + describe(s) + "\n extensions: " + ex + "\n when: " + when;
+        });
+    };
+    verify("initial presence", false);
+    // the application goes on: the advertised information changes (an extension is added, the client name or the software
+    // form is set) and the presence is updated the usual way - from a copy of the current client presence or from a fresh one
+    int rounds = int(t.u(3));
+    for (int r = 0; r < rounds; r++) {
+        std::string change;
+        switch (t.u(4)) {
+        case 0:
+            if (!client.findExtension<QXmppMucManager>()) {
+                client.addNewExtension<QXmppMucManager>();
+                change = "add muc";
+            } else if (!client.findExtension<QXmppAttentionManager>()) {
+                client.addNewExtension<QXmppAttentionManager>();
+                change = "add attention";
+            } else {
+                change = "no change";
+            }
+            break;
+        case 1:
+            disco->setClientName(val(t, 12, true) + QString::number(r));
+            change = "client name";
+            break;
+        case 2: {
+            QXmppDataForm form;
+            form.setType(QXmppDataForm::Result);
+            QXmppDataForm::Field ft, f;
+            ft.setKey(QStringLiteral("FORM_TYPE"));
+            ft.setType(QXmppDataForm::Field::HiddenField);
+            ft.setValue(QStringLiteral("urn:xmpp:dataforms:softwareinfo"));
+            f.setKey(QStringLiteral("software_version"));
+            f.setValue(val(t, 10) + QString::number(r));
+            form.setFields({ ft, f });
+            disco->setClientInfoForm(form);
+            change = "software form";
+            break;
+        }
+        default: change = "no change"; break;
+        }
+        const bool reuse = t.b();
+        QXmppPresence pr = reuse ? client.clientPresence() : QXmppPresence();
+        pr.setStatusText(QStringLiteral("status %1").arg(r));
+        client.take();
+        client.setClientPresence(pr);
+        client.pump(2);
+        ex += "| " + change + (reuse ? ", presence updated from clientPresence()" : ", fresh presence") + " ";
+        c.label("update:" + change + (reuse ? " (reused presence)" : " (fresh presence)"));
+        verify("after update " + std::to_string(r + 1) + ": " + change, true);
     }
-    QByteArray ref = referenceHash(s).toBase64();
-    c.require(QString::fromLatin1(ref) == ver, "c20 client advertised-ver-differs-from-disco-reply", [&] {
-        return "presence advertises ver=" + q(ver) + " but the disco#info reply for that node hashes to " + ref.toStdString() + "\n reply: " + describe(s) + "\n extensions: " + ex;
-    });
     client.closeSession();
 }
 
